@@ -6,7 +6,7 @@ out=mutations/RESULTS.txt
 echo "# mutant kill table, quick tier, $(date -u +%Y-%m-%dT%H:%MZ), /repo at $(git -C /repo log --format=%h -1)" > $out
 for m in mutations/*.diff; do
   p=$(basename $m | cut -d- -f1)
-  if ! git -C /repo apply --check $m 2>/dev/null; then echo "STALE    $p $(basename $m) (no longer applies to the repaired tree)" >> $out; continue; fi
+  if ! git -C /repo apply --check /verif/$m 2>/dev/null; then echo "STALE    $p $(basename $m) (no longer applies to the repaired tree)" >> $out; continue; fi
   tools/mutate.sh $m $p 2>&1 | grep "KILLED\|SURVIVED\|INFRA\|COMPILE" | cut -c1-220 >> $out
 done
 cat $out | cut -c1-120
